@@ -71,6 +71,19 @@ type Case struct {
 	KOffset int64   `json:"koffset,omitempty"`
 	// kernel:table cases
 	KTable *TableCase `json:"ktable,omitempty"`
+	// kernel:acc cases
+	KAcc *AccCase `json:"kacc,omitempty"`
+}
+
+// AccCase: one accumulator reused over a sequence of steps (Reset(arg), then the members).
+type AccCase struct {
+	Op    string    `json:"op"`
+	Steps []AccStep `json:"steps"`
+}
+
+type AccStep struct {
+	Arg  F   `json:"arg"`
+	Vals []F `json:"vals"`
 }
 
 // TableCase: the join indexes of one binary operator and a sequence of steps.
